@@ -250,6 +250,9 @@ def main():
     os.makedirs(EVID, exist_ok=True)
     violations = []   # (replay path, suffix)
     notes = {}
+    import glob as _g
+    if not a.replay:
+        for f in _g.glob(os.path.join(EVID, 'replays', pid + '-*.json')): os.remove(f)
 
     if a.replay:
         rp = json.load(open(a.replay))
@@ -411,6 +414,10 @@ def main():
         'wall_s': round(time.time() - t0, 2),
         'violations': len(violations),
     }
+    if proof_broken:
+        # a broken proof obligation: no theorem count is claimed for this run
+        ev['coverage'].pop('obligations'); ev['coverage'].pop('discharged')
+        ev['coverage']['proof_broken'] = proof_broken.get('kind')
     json.dump(ev, open(os.path.join(EVID, pid + '.json'), 'w'), indent=1)
     for p, suffix in violations:
         print('VIOLATION property=%s replay=%s%s' % (pid, p, (' ' + suffix) if suffix else ''))
